@@ -119,6 +119,9 @@ def register(reg):
     reg.lemmas.append(Lemma("proxy_cap_idempotent", PID, twice, "registering a proxy-only capability twice yields the same URL"))
     from contracts import c16b_contracts
     c16b_contracts.register_p2(reg, PID)
+    # the request handler of the main process (contract shared with C15 / C17): attribution goes by the request URL
+    from contracts import c17c_contracts
+    c17c_contracts.register_p3(reg, PID, instances=(("@all", "quick", {}),), only_handle_request=True, only_clauses=["'resolve_cap'", "ncalls('resolve_cap'"])
 
 
 BOUNDED = [http_native.bounded_caps]
